@@ -1,5 +1,6 @@
 import FitModel.Csv
 import FitModel.ScaleOffset
+import FitModel.TimeAngle
 /-!
 The arithmetic of fitconv's scaled mode as the code computes it, built from the bit-exact binary64 model of
 `FitModel/F64.lean` and the model of kit/scaleoffset and of the scaled path of fitcsv `parseValue`
@@ -12,14 +13,15 @@ open Fit.Value
 
 /-- writer: `ApplyValue(v, scale, offset)` = `float64(v)/scale − offset` (the writer takes this path only for a field
 that is not (scale 1, offset 0)); reader: `Discard`, `math.Round` for an integer base type, the base type's conversion
-(`csvParseScaled`; no case of the switch = the zero `proto.Value`). The degrees option is outside `CsvUnambiguous`. -/
+(`csvParseScaled`; no case of the switch = the zero `proto.Value`). The degrees option: `ToSemicircles(ToDegrees(s))` of
+kit/semicircles over the same binary64 (FitModel/TimeAngle.lean; `C12_semicircles`: the identity on every int32 pattern). -/
 def Arith.so : Arith where
   scaled v bt scale offset :=
     match Fit.ScaleOffset.scalarOf v with
     | some (t, p) =>
       some ((Fit.ScaleOffset.csvParseScaled (Fit.ScaleOffset.apply (Fit.ScaleOffset.toF64 t p) scale offset) bt scale offset).getD .invalid)
     | none => none
-  degrees s := s
+  degrees s := Fit.TimeAngle.toSemicircles (Fit.TimeAngle.toDegrees s)
   fscaled x bt scale offset := Fit.ScaleOffset.csvParseScaled x bt scale offset
 
 end Fit.Csv
